@@ -21,7 +21,7 @@ CLAIMS = {
          "Trusted: that tokio wakes the actor at sleep_until(min deadline) and the Notify re-arming in poll_next_expired (async, A-GLUE); Instant stand-in = u64 nanoseconds, EPOCH not later than any now() (A-STUB); clock below 2^60 ns (A-ARITH)."),
  "C05": ("proof",
          "Proved: seconds -> Option<Duration> classification over all i32 (<0 INVALID_ARGUMENT, 0 nack, 1..599, >=600 capped); per-pair body of parse_deadline_modifications (lifted region) yields exactly the modification with deadline in [now+N, now+N+100ms) or the error, and the whole function returns one such modification per (ack id, seconds) pair in request order or fails as a whole with INVALID_ARGUMENT; OutstandingMessageTracker::modify equals the fold of the per-modification spec in request order (old expiry key removed, new inserted, nacked lease returned), modify_deadline appends the nacked messages to the backlog in the same turn; unknown ids are skipped.",
-         "The zip/map/collect::<Result<Vec,_>> plumbing of parse_deadline_modifications is now under contract on the whole function (one modification per pair in request order; Ok only if every pair is well-formed, the only failure is INVALID_ARGUMENT), using vstd's zip/map/collect specifications and one trusted axiom for std's `impl FromIterator<Result<A,E>> for Result<Vec<A>,E>` (all items unwrapped in order, or one of the errors); normalisation N12 binds the closure's tuple-pattern parameter by a `let`. The unary ModifyAckDeadline handler (async fn, whole body) is under contract: OK means the subscription was handed one modification per ack id, in order, each the per-pair result for the request's seconds value at one instant `now` of the call; a malformed id / negative value / malformed name is INVALID_ARGUMENT (returned before the handle is reached: the only call on the handle follows every `?` of the parsing, which the verifier checks through the postconditions at each exit), an absent name NOT_FOUND. Trusted: the handle (A-GLUE); the in-stream variant (try_stream! body) stays with the stand-ins."),
+         "The zip/map/collect::<Result<Vec,_>> plumbing of parse_deadline_modifications is now under contract on the whole function (one modification per pair in request order; Ok only if every pair is well-formed, the only failure is INVALID_ARGUMENT), using vstd's zip/map/collect specifications and one trusted axiom for std's `impl FromIterator<Result<A,E>> for Result<Vec<A>,E>` (all items unwrapped in order, or one of the errors); normalisation N12 binds the closure's tuple-pattern parameter by a `let`. The unary ModifyAckDeadline handler (async fn, whole body) is under contract: OK means the subscription was handed one modification per ack id, in order, each the per-pair result for the request's seconds value at one instant `now` of the call; a malformed id / negative value / malformed name is INVALID_ARGUMENT (returned before the handle is reached: the only call on the handle follows every `?` of the parsing, which the verifier checks through the postconditions at each exit), an absent name NOT_FOUND. Trusted: the handle (A-GLUE); the in-stream control handler handle_streaming_pull_request is under contract as a whole async function as well (after fix fa8d41c): inconsistent messages, malformed ack ids in either list and negative values are INVALID_ARGUMENT; OK means the acks and one modification per pair were handed to the subscription in order. That a rejected message applied nothing (F4) is not expressible as a contract and stays with the stand-in scenario `stream_reject_atomic`."),
  "C08": ("proof of the sequential parts (scoped)",
          "Proved: the Publish handler (async fn, whole body, B5) returns exactly one message id per submitted message, hands the topic every message of the request in request order and answers with the text of the ids the topic returned, in that order; the id-assignment region of publish_messages returns exactly one id per submitted message in request order, id i = (topic id << 32) | (counter + 1 + i), counter advances by n; ids are strictly monotone in the counter (bit-vector lemma); pull returns a prefix of the backlog in order and post appends at the end; history lemma lemma_fifo (unbounded histories of actor turns): the sequence of first deliveries on a subscription is a prefix of the sequence of accepted posts, each post's batch contiguous and in request order - requeued messages never overtake a never-delivered one.",
          "NOT covered: 'awaits all posts before the next publish' and equal order on every subscription (async fan-out, A-GLUE); fewer than 2^32-1 messages per topic (A-ARITH, u32 counter)."),
